@@ -313,6 +313,25 @@ def special_d(rng, tier):
     out.append(S.d("RR", rr_wire(65, 1, 5, b"\x00\x01\x00" + par(0, b"") + par(5, b"\x00\x00") + par(7, b""))))
     for t in (10, 22, 31, 32):
         out.append(S.d("Dns", msg_wire(an=[rr_wire(t, 1, 5, b""), rr_wire(t, 1, 5, b""), rr_wire(1, 1, 5, bytes(4))], fl=0x8000)))
+    # the last element of a list overruns its window (a length octet / length field announcing more than is left)
+    for rd in (b"\x05ab", b"\x07", b"\x01a\x05bc", b"\xff" + b"a" * 254, b"\x00\x03ab"):
+        out.append(S.d("RR", rr_wire(16, 1, 5, rd)))
+        out.append(S.d("Dns", msg_wire(an=[rr_wire(16, 1, 5, rd)], fl=0x8000)))
+    out.append(S.d("RR", rr_wire(13, 1, 5, st(b"cpu") + b"\x09os")))
+    out.append(S.d("RR", opt_rr(512, 0, opt(12, b"") + struct.pack(">HH", 12, 9) + bytes(3))))
+    out.append(S.d("RR", opt_rr(512, 0, opt(10, bytes(8)) + b"\x00\x0c\x00")))
+    out.append(S.d("RR", rr_wire(42, 1, 5, struct.pack(">HBB", 1, 8, 1) + b"\x0a" + struct.pack(">HBB", 1, 16, 3) + b"\x0a")))
+    out.append(S.d("RR", rr_wire(64, 1, 5, b"\x00\x01\x00" + par(3, b"\x00\x50") + struct.pack(">HH", 7, 9) + b"abc")))
+    out.append(S.d("RR", rr_wire(64, 1, 5, b"\x00\x01\x00" + par(1, st(b"h2") + b"\x05h3"))))
+    out.append(S.d("RR", rr_wire(64, 1, 5, b"\x00\x01\x00" + par(1, st(b"h2")) + b"\x00\x03\x00")))
+    # `mandatory` lists as they may come from the wire: duplicated and unsorted keys (the list is kept as it is)
+    for keys_ in ([1, 1], [3, 3, 4], [65280, 1, 65280], [4, 1], [1, 6, 3], [3, 1, 3, 1], [1, 1, 1, 1, 1]):
+        byk = {1: par(1, st(b"h2")), 3: par(3, b"\x01\xbb"), 4: par(4, bytes([192, 0, 2, 1])), 6: par(6, bytes(15) + b"\x01"),
+               65280: par(65280, b"x")}
+        body = par(0, b"".join(struct.pack(">H", k) for k in keys_)) + b"".join(byk[k] for k in sorted(set(keys_)))
+        for t in (64, 65):
+            out.append(S.d("RR", rr_wire(t, 1, 5, b"\x00\x01\x00" + body)))
+            out.append(S.d("Dns", msg_wire(an=[rr_wire(t, 1, 5, b"\x00\x01\x03svc\x00" + body)], fl=0x8000)))
     return out
 
 
